@@ -703,6 +703,13 @@ class Exec:
             return self.result
         if self.spec and n in ("True", "False"):
             return T.mk_bool(n == "True")
+        if self.spec and n in (self.c.locals or {}):
+            # a declared local that this path never assigned, mentioned in a clause: an arbitrary (ghost) value of its
+            # declared type, the same one throughout this run -- the clause then has to hold whatever it is
+            gh = self.__dict__.setdefault("_ghost_locals", {})
+            if n not in gh:
+                gh[n] = T.fresh(self.c.locals[n], "unassigned." + n)
+            return gh[n]
         raise Unsupported(f"unbound name {n}", node)
 
     def lift_const(self, c):
